@@ -94,7 +94,8 @@ theorem unknown_absorbs (h : Bytes → HRes) (a : Bytes) (s : S) (he : s.err = n
     rw [stepC_nil h _ hb]
     rcases hb' with ⟨h1, h2⟩
     subst h2
-    cases s; simp_all [sapp, app]
+    rw [sapp_nil]
+    cases s; simp_all
   · left
     rw [stepC_unknown h _ hb hu]
     simp [sapp, app, hu]
@@ -124,8 +125,11 @@ theorem violation_returns_event (h : Bytes → HRes) (p : Lst) (hb : p.ls = .BUS
       by_cases hc : n - ((takeBody p n).result.length : Int) = 0
       · simp only [hc, if_true] at hu ⊢
         unfold handled at hu ⊢
-        cases hh : h (takeBody p n).result <;> simp [hh, afterResult] at hu ⊢
-      · simp [hc, takeBody, hb] at hu
+        have hev : (takeBody p n).event = p.event := rfl
+        cases hh : h (takeBody p n).result <;> simp [hh, afterResult, hev] at hu ⊢
+      · simp only [hc, if_false] at hu
+        have : (takeBody p n).ls = p.ls := rfl
+        rw [this, hb] at hu; cases hu
 
 /-- the one deviation from the documented automaton (finding F25): a complete zero-length result is
     not acted on until another byte arrives -/
